@@ -15,6 +15,7 @@ package main
 import (
 	"errors"
 	"fmt"
+	"os"
 	"sort"
 	"strings"
 	"time"
@@ -154,6 +155,9 @@ func run(h []event) result {
 	runFails, maxFails := 0, 0          // consecutive failed attempts (current run, longest run)
 	seenOffers := 0
 	lastOutcome := "none" // outcome of the last report attempt of the history
+	// backwards: a cumulative reading went DOWN (a counter source that was reset). The ledger says nothing then;
+	// what remains is the first clause: no payload offered to the client carries negative usage.
+	backwards := false
 
 	// account digests everything the client was offered since the last call.
 	account := func(step string) *seqx.Failure {
@@ -173,7 +177,7 @@ func run(h []event) result {
 			}
 		}
 		for i, s := range signals {
-			if sent[i] > int64(cum[i]) {
+			if sent[i] > int64(cum[i]) && !backwards {
 				return &seqx.Failure{Sig: fmt.Sprintf("ledger:double-count:last-attempt=%s", lastOutcome),
 					What: fmt.Sprintf("history %v, at %s: signal %s: successfully sent reports carry %d but the counter only grew by %d", h, step, s, sent[i], cum[i])}
 			}
@@ -185,12 +189,22 @@ func run(h []event) result {
 		step := fmt.Sprintf("step %d %v", n, e)
 		switch e.Op {
 		case "read":
+			if e.D < 0 {
+				backwards = true
+			}
 			cum[e.Sig] += e.D
 			a.VerifAddUsage(signals[e.Sig], float64(cum[e.Sig]))
 		case "report":
 			cl.script = strings.Split(e.Out, "-")
 			before := len(cl.offers)
 			noData, err := a.VerifSendUsageReport()
+			if backwards && os.Getenv("C34_DEBUG") != "" {
+				last := ""
+				if len(cl.offers) > before {
+					last = string(cl.offers[len(cl.offers)-1].data)
+				}
+				fmt.Fprintf(os.Stderr, "DBG %v -> noData=%v err=%v offers=%d %s\n", h[:n+1], noData, err, len(cl.offers)-before, last)
+			}
 			lastOutcome = e.Out
 			accepted := false
 			for _, o := range cl.offers[before:] {
@@ -275,7 +289,7 @@ func run(h []event) result {
 		}
 	}
 	for i, s := range signals {
-		if sent[i] != int64(cum[i]) {
+		if sent[i] != int64(cum[i]) && !backwards {
 			res.fail = &seqx.Failure{Sig: fmt.Sprintf("ledger:lost:longest-run-of-failed-attempts=%d", clip(maxFails, 2)),
 				What: fmt.Sprintf("after %v and then %d successful report(s) with nothing left to report: signal %s counter grew by %d but successfully sent reports carry only %d (%d lost for good; longest run of consecutive failed attempts: %d)",
 					h, flushes, s, cum[i], sent[i], int64(cum[i])-sent[i], maxFails)}
@@ -339,6 +353,48 @@ func main() {
 			return res.canon, res.outcome, res.fail
 		},
 		MaxDepth: depth, Workers: 16,
+		// every history of length <= 5 (11^5) is executed whatever the canonical key says
+		NoMergeDepth: 4,
+	})
+	// second scenario: one reading of signal 0 goes backwards by 3 (after it has grown by 5); only "no negative usage
+	// in any payload" is judged from then on
+	back := append(append([]event{}, alphabet...), event{Op: "read", Sig: 0, D: -3})
+	seqx.Explore(r, seqx.Scenario[event]{
+		Name: "usage-ledger-with-a-backward-reading",
+		Enabled: func(h []event) []event {
+			cum0, used := 0, false
+			for _, e := range h {
+				if e.Op == "read" && e.Sig == 0 {
+					cum0 += e.D
+				}
+				if e.Op == "read" && e.D < 0 {
+					used = true
+				}
+			}
+			if cum0 >= 3 && !used {
+				return back
+			}
+			return alphabet
+		},
+		Exec: func(h []event) (string, string, *seqx.Failure) {
+			res := run(h)
+			c := res.canon
+			if c != "" {
+				// the main scenario's key stores the tracker's mirror of the readings relative to them (shift invariance
+				// holds for non-decreasing readings only): here the absolute readings are part of the state
+				cum := make([]int, len(signals))
+				seen := false
+				for _, e := range h {
+					if e.Op == "read" {
+						cum[e.Sig] += e.D
+						seen = seen || e.D < 0
+					}
+				}
+				c += fmt.Sprintf("|cum=%v|backward-reading-seen=%v", cum, seen)
+			}
+			return c, res.outcome, res.fail
+		},
+		MaxDepth: ev.Pick(r, 7, 9), Workers: 16,
 	})
 	r.Set("evaluations", r.Count("transitions"))
 	if r.NDistinct("distinct_nontrivial") == 0 {
